@@ -168,7 +168,7 @@ def _nth(f, b):
 
 
 # ------------------------------------------------------------------------------------------------
-KEYED_READS = MAP + r"(get|get_mut|contains_key|get_key_value)\b"
+KEYED_READS = MAP + r"(get|get_mut|contains_key|get_key_value|entry)\b"
 WHOLE_READS = MAP + r"(keys|iter|values|len|is_empty|iter_mut|values_mut)\b"
 
 
